@@ -36,6 +36,10 @@ ASSUMPTIONS = ["initial scenes satisfy the property's preconditions (checked by 
 EXPLANATION = ("SPECFAIL messages start with class=<fingerprint>: endnode-visibility (segment attached to an end node's centre "
                "cuts a node that shares a scan line with that end node), seg-through-node, bad-bend, node-overlap, ends-changed, "
                "side-changed, unsafe-alpha (tie), crash-<assert kind>.")
+# WIP stays until the lead has dealt with the two genuine libtopology defects this check reports on the clean
+# tree (fix: commit for class=endnode-visibility and/or known_findings entries, see the C13 report): with the
+# msg_re patterns ^class=(endnode-visibility|crash-(resize-)?assert-segment-rect-intersection) and
+# ^class=(bad-bend-after-parallel-segment|crash-(resize-)?assert-convex-bend) registered, seeds 1..5 are quiet in both tiers.
 WIP = True
 
 
